@@ -341,4 +341,118 @@ theorem C04_stop_reaches (s : Shape) (hw : s.wf = true) (ho : ownLeaves s = true
     rw [hl] at h1
     simp [h1 x (by simp)]
 
+/-! ## the text summary and the exit status -/
+def tallyOfTT (s : TT) : Tally := { n := s.testsRun, errs := s.errors, fails := s.failures, uxs := s.uxs }
+
+theorem summary_eq (s : TT) : textSummary s = (tallyOfTT s).summary := by
+  simp [textSummary, Tally.summary, tallyOfTT, TT.wasSuccessful, Bool.and_assoc]
+
+/-- a started `TextTestResult` writes what `Spec.C04.textSpec` says, whatever calls it gets -/
+theorem text_out : ∀ (cs : List Call) (s : TextSt), s.started = true →
+    (cs.foldl textStep s).out = s.out ++ textSpec (tallyOfTT s.tt) cs
+  | [], s, _ => by simp [textSpec]
+  | c :: cs, s, hs => by
+      rw [List.foldl_cons]
+      cases c with
+      | startTestRun =>
+        rw [text_out cs _ rfl]
+        simp [textStep, textSpec, ttStep, TT.reset, tallyOfTT, Call.logged]
+      | stopTestRun =>
+        rw [text_out cs _ (by simpa [textStep] using hs)]
+        simp [textStep, textSpec, hs, summary_eq, ttStep, tallyOfTT, Call.logged]
+      | add k t a =>
+        rw [text_out cs _ (by simpa [textStep] using hs)]
+        cases k <;> simp [textStep, textSpec, ttStep, tallyOfTT, Call.logged]
+      | _ =>
+        rw [text_out cs _ (by simpa [textStep] using hs)]
+        simp [textStep, textSpec, ttStep, tallyOfTT, Call.logged]
+
+theorem bad_iff_not_passing (k : Kind) : Kind.bad k = !k.passing := by cases k <;> rfl
+
+/-- what the tally is after the calls of a suite -/
+theorem prog_tally : ∀ (ks : List Kind) (ff : Bool) (i : Nat) (T : Tally) (rest : List Call),
+    textSpec T (progCalls ff i ks ++ rest) = textSpec (tallyOf T i (dispatched ff ks)) rest
+  | [], _, _, _, _ => rfl
+  | k :: ks, ff, i, T, rest => by
+      have ih := prog_tally ks ff (i + 1)
+      cases ff <;> cases k <;>
+        simp [progCalls, dispatched, textSpec, tallyOf, Kind.bad, Kind.passing, ih]
+
+theorem dispatched_any (ff : Bool) : ∀ (ks : List Kind), (dispatched ff ks).any Kind.bad = ks.any Kind.bad
+  | [] => rfl
+  | k :: ks => by
+      have ih := dispatched_any ff ks
+      cases ff <;> cases hk : Kind.bad k <;> simp [dispatched, hk, ih]
+
+theorem tallyOf_clean : ∀ (ks : List Kind) (T : Tally) (i : Nat),
+    let T' := tallyOf T i ks
+    (T'.errs.isEmpty && T'.fails.isEmpty && T'.uxs.isEmpty)
+      = ((T.errs.isEmpty && T.fails.isEmpty && T.uxs.isEmpty) && !ks.any Kind.bad)
+  | [], T, _ => by simp [tallyOf]
+  | k :: ks, T, i => by
+      have ih := tallyOf_clean ks
+      cases k <;> simp [tallyOf, ih, Kind.bad] <;> cases T.errs <;> cases T.fails <;> cases T.uxs <;> simp
+
+def tallyStep (T : Tally) (c : Call) : Tally :=
+  match c with
+  | .startTestRun => {}
+  | .startTest _ => { T with n := T.n + 1 }
+  | .add .error t _ => { T with errs := T.errs ++ [t] }
+  | .add .failure t _ => { T with fails := T.fails ++ [t] }
+  | .add .uxsuccess t _ => { T with uxs := T.uxs ++ [t] }
+  | _ => T
+
+/-- the tally a `TextTestResult` keeps -/
+theorem text_tally : ∀ (cs : List Call) (s : TextSt),
+    tallyOfTT (cs.foldl textStep s).tt = cs.foldl tallyStep (tallyOfTT s.tt)
+  | [], _ => rfl
+  | c :: cs, s => by
+      rw [List.foldl_cons, List.foldl_cons, text_tally cs]
+      congr 1
+      cases c with
+      | add k t a => cases k <;> simp [textStep, ttStep, tallyOfTT, tallyStep, Call.logged]
+      | _ => simp [textStep, ttStep, tallyOfTT, tallyStep, Call.logged, TT.reset]
+
+theorem prog_run : ∀ (ks : List Kind) (ff : Bool) (i : Nat) (T : Tally),
+    (progCalls ff i ks).foldl tallyStep T = tallyOf T i (dispatched ff ks)
+  | [], _, _, _ => rfl
+  | k :: ks, ff, i, T => by
+      have ih := prog_run ks ff (i + 1)
+      cases ff <;> cases k <;>
+        simp [progCalls, dispatched, tallyStep, tallyOf, Kind.bad, Kind.passing, ih, List.foldl_append]
+
+/-- **C04 (exit status and summary of `testtools.run`).**  For a module of test cases with outcomes `ks`, run with or
+without `-f`: the exit status is 1 exactly when some outcome is an error, a failure or an unexpected success, and
+the output is the banner, one section per problem of the tests dispatched (with `-f`: up to the first bad one),
+their count, and `OK` / `FAILED (failures=k)` with `k` the number of sections. -/
+theorem C04_exit (ff : Bool) (ks : List Kind) :
+    runProg ff ks = (if ks.any Kind.bad then 1 else 0, .running :: (tallyOf {} 0 (dispatched ff ks)).summary) := by
+  have hstart : step (.text ff) (init (.text ff)) .startTestRun
+      = ({ tt := ttStep { failfast := ff } .startTestRun, started := true, out := [.running] } : TextSt) := rfl
+  have hrun : (run (.text ff) (init (.text ff)) ([.startTestRun] ++ progCalls ff 0 ks ++ [.stopTestRun]) : TextSt)
+      = (progCalls ff 0 ks ++ [Call.stopTestRun]).foldl textStep
+          { tt := ttStep { failfast := ff } .startTestRun, started := true, out := [.running] } := by
+    rfl
+  have hT : tallyOfTT (ttStep { failfast := ff } .startTestRun) = {} := by
+    simp [ttStep, TT.reset, tallyOfTT, Call.logged]
+  simp only [runProg]
+  rw [hrun]
+  refine Prod.ext ?_ ?_
+  · -- exit status
+    simp only
+    have h1 := text_tally (progCalls ff 0 ks ++ [Call.stopTestRun])
+      { tt := ttStep { failfast := ff } .startTestRun, started := true, out := [.running] }
+    have h2 := tallyOf_clean (dispatched ff ks) {} 0
+    simp only [dispatched_any] at h2
+    have h3 : ∀ (s : TT), s.wasSuccessful = ((tallyOfTT s).errs.isEmpty && (tallyOfTT s).fails.isEmpty && (tallyOfTT s).uxs.isEmpty) := by
+      intro s; simp [TT.wasSuccessful, tallyOfTT]
+    rw [h3, h1]
+    simp only [hT, List.foldl_append, prog_run, List.foldl_cons, List.foldl_nil, tallyStep]
+    rw [h2]
+    cases ks.any Kind.bad <;> simp
+  · -- output
+    simp only
+    rw [text_out _ _ rfl, hT, prog_tally]
+    simp [textSpec]
+
 end TTV.Props.C04
